@@ -95,6 +95,10 @@ fn metrics_view(m: &stretto::Metrics) -> Option<MetricsView> {
     })
 }
 
+pub fn metrics_view_pub(m: &stretto::Metrics) -> Option<MetricsView> {
+    metrics_view(m)
+}
+
 pub trait Sut {
     fn insert(&self, k: u64, v: Val, cost: i64, ttl: Duration) -> Result<bool, String>;
     fn insert_if_present(&self, k: u64, v: Val, cost: i64) -> Result<bool, String>;
